@@ -5,19 +5,19 @@ sys.path.insert(0, os.path.join(os.path.dirname(os.path.dirname(os.path.abspath(
 import vxlib, verusrun
 unit = sys.argv[1]
 g = vxlib.generate(f"{vxlib.VERIF}/contracts/{unit}.vrs", with_mutants="--mutants" in sys.argv)
-os.makedirs(f"{vxlib.VERIF}/gen", exist_ok=True)
-path = f"{vxlib.VERIF}/gen/{unit}.rs"
+GEN = os.environ.get("VERIF_GENDIR", "gen"); os.makedirs(f"{vxlib.VERIF}/{GEN}", exist_ok=True)
+path = f"{vxlib.VERIF}/{GEN}/{unit}.rs"
 open(path, "w").write(g.text)
 r = verusrun.run_verus(path, seed=int(__import__('os').environ.get('S','0')))
 print("ok", r.ok, "verified", r.verified, "errors", r.errors, "wall", round(r.wall_s,1), "smt_ms", r.smt_ms)
 for f in r.failures: print("FAIL", f["kind"], f["fn"], f["line"], f["message"], "|", f["clause"]); print(f["rendered"])
 for u in r.undecided: print("UNDECIDED", u)
 if "--canary" in sys.argv:
-    cp = f"{vxlib.VERIF}/gen/{unit}_canary.rs"; open(cp,"w").write(g.canary_text)
+    cp = f"{vxlib.VERIF}/{GEN}/{unit}_canary.rs"; open(cp,"w").write(g.canary_text)
     rc = verusrun.run_verus(cp, multiple_errors=50)
     print("canary: failures", len(rc.failures), "undecided", rc.undecided)
     for f in rc.failures: print("  ", f["kind"], f["fn"], f["line"], f["src"])
 for fn, mn, text in g.mutants:
-    mp = f"{vxlib.VERIF}/gen/{unit}_mut.rs"; open(mp,"w").write(text)
+    mp = f"{vxlib.VERIF}/{GEN}/{unit}_mut.rs"; open(mp,"w").write(text)
     rm = verusrun.run_verus(mp)
     print("mutant", fn, mn, "->", "REJECTED" if rm.failures else ("UNDECIDED "+str(rm.undecided)[:300] if rm.undecided else "ACCEPTED(!)"), [ (f["kind"],f["fn"]) for f in rm.failures])
